@@ -55,6 +55,8 @@ type Scenario struct {
 	// Events returns the deviation menu at the head of a slot; it must be a deterministic
 	// function of the history so far.
 	Events           func(h *Hist, slot int) []Event
+	// Script runs unconditionally at the head of every slot (scripted, non-chosen environment steps).
+	Script func(h *Hist, slot int)
 	MaxEventsPerSlot int
 	// FaultOps lists the operations whose calls are ok/fail choice points inside a scan.
 	FaultOps map[string]bool
@@ -63,6 +65,15 @@ type Scenario struct {
 	// FaultsAtBuild also offers faults while the provider is being (re)built.
 	FaultsAtBuild bool
 	Monitors      func() []Monitor
+	// Prepare runs once, outside any bubble, before the scenario is explored or replayed.
+	Prepare func(t *testing.T, s *Scenario)
+	// Twin runs after each execution, outside the bubble: it may re-execute the same choices on a
+	// variant and append violations to h.Viol (metamorphic oracles).
+	Twin func(t *testing.T, s *Scenario, h *Hist, choices []int)
+	// Lenient executions swallow a divergence between forced choices and menus (twins only).
+	Lenient bool
+	// Shared is scenario-level scratch space for Prepare / Twin / monitors.
+	Shared map[string]any
 	// FleetTimeout is the fleet instance ready timeout handed to the provider.
 	FleetTimeout time.Duration
 }
@@ -85,6 +96,11 @@ type Hist struct {
 	PermPods   int
 
 	Lifetimes int // controller lifetimes started
+	Abort     bool // stop executing further slots (set by twin monitors)
+	// DivergedMsg is set when a lenient (twin) execution met a menu its forced choices did not fit.
+	DivergedMsg string
+	// Per-scan summaries kept for metamorphic comparisons.
+	Summaries []ScanSummary
 	Trace     []string
 	Monitors  []Monitor
 	Viol      []Violation
@@ -209,6 +225,7 @@ type ScanResult struct {
 	Exit     bool
 	Hang     bool
 	Duration time.Duration
+	diverged any
 }
 
 func (h *Hist) runOnce() (res ScanResult) {
@@ -225,7 +242,7 @@ func (h *Hist) runOnce() (res ScanResult) {
 				case ExitSentinel:
 					res.Exit = true
 				case explore.Diverged:
-					panic(r)
+					res.diverged = r
 				default:
 					res.Panic = r
 					res.Stack = shortStack()
@@ -242,6 +259,9 @@ func (h *Hist) runOnce() (res ScanResult) {
 		res.Hang = true
 	}
 	res.Duration = time.Since(start)
+	if res.diverged != nil {
+		panic(res.diverged)
+	}
 	return res
 }
 
@@ -249,6 +269,18 @@ func (h *Hist) runOnce() (res ScanResult) {
 func Run(t *testing.T, s *Scenario, ch *explore.Chooser, after func(h *Hist)) {
 	synctest.Test(t, func(t *testing.T) {
 		h := &Hist{S: s, Ch: ch, W: sim.NewWorld(), Cov: map[string]int64{}}
+		defer func() {
+			if r := recover(); r != nil {
+				if d, ok := r.(explore.Diverged); ok && s.Lenient {
+					h.DivergedMsg = d.Msg
+					if after != nil {
+						after(h)
+					}
+					return
+				}
+				panic(r)
+			}
+		}()
 		h.T0 = time.Now()
 		h.W.D = h
 		for _, g := range s.Groups {
@@ -260,7 +292,7 @@ func Run(t *testing.T, s *Scenario, ch *explore.Chooser, after func(h *Hist)) {
 		}
 		s.Init(h)
 		h.needRestart = true
-		for h.Slot = 0; h.Slot < s.Slots; h.Slot++ {
+		for h.Slot = 0; h.Slot < s.Slots && !h.Abort; h.Slot++ {
 			h.slot()
 		}
 		if after != nil {
@@ -273,6 +305,9 @@ func (h *Hist) slot() {
 	s := h.S
 	h.Stale, h.SkipSettle, h.Restart, h.ExtraTicks, h.PermNodes, h.PermPods = false, false, false, 0, 0, 0
 	h.Trace = append(h.Trace, fmt.Sprintf("slot %d t=+%s", h.Slot, time.Since(h.T0)))
+	if s.Script != nil {
+		s.Script(h, h.Slot)
+	}
 	if s.Events != nil {
 		menu := s.Events(h, h.Slot)
 		last := 0
@@ -361,6 +396,7 @@ func (h *Hist) scan() {
 		tr += " => exit requested"
 	}
 	h.Trace = append(h.Trace, tr)
+	h.Summaries = append(h.Summaries, summarize(ctx))
 	for _, m := range h.Monitors {
 		h.Viol = append(h.Viol, m.AfterScan(ctx)...)
 	}
@@ -398,4 +434,39 @@ func taintSummary(n *v1.Node) string {
 	}
 	sort.Strings(ks)
 	return strings.Join(ks, ";")
+}
+
+// ScanSummary is the per-group list of writes of one scan in a canonical, comparable form.
+type ScanSummary struct {
+	Scan     int
+	ByGroup  map[string][]string
+	Fatal    bool
+	Removed  map[string][]string // per group: nodes terminated or deleted (successful calls)
+	NonRem   map[string][]string // per group: every other write
+}
+
+func summarize(ctx *ScanCtx) ScanSummary {
+	s := ScanSummary{Scan: ctx.Scan, ByGroup: map[string][]string{}, Removed: map[string][]string{}, NonRem: map[string][]string{}}
+	s.Fatal = ctx.Res.Err != nil || ctx.Res.Panic != nil || ctx.Res.Killed || ctx.Res.Exit || ctx.Res.Hang
+	for _, e := range ctx.Entries {
+		if !e.Write() {
+			continue
+		}
+		g := ctx.EntryGroup(e)
+		d := shortEntry(e)
+		s.ByGroup[g] = append(s.ByGroup[g], d)
+		switch e.Op {
+		case sim.OpTerminate:
+			name := e.Target
+			if _, n := ctx.NodeOfInstance(e.Target); n != nil {
+				name = n.Name
+			}
+			s.Removed[g] = append(s.Removed[g], "terminate:"+name+"!"+e.Err)
+		case sim.OpK8sDelete:
+			s.Removed[g] = append(s.Removed[g], "delete:"+e.Target+"!"+e.Err)
+		default:
+			s.NonRem[g] = append(s.NonRem[g], d)
+		}
+	}
+	return s
 }
